@@ -210,9 +210,18 @@ def c14(ctx):
 
 @prop("C10")
 def c10(ctx):
-    ctx.rule = ("G: Iter.MarshalJSON from the root and from an iterator scoped on every inner value, Array.MarshalJSON, Elements.MarshalJSON "
-                "compared byte for byte with Marshal!Render for every document and every one-step edit; output re-parsed and "
+    ctx.rule = ("M: MarshalMachine.tla (the marshaller as a stack machine over tape words, with the iterator's scope as a parameter): "
+                "on every reachable tape the machine started at the document gives Marshal!Render (MachineAgrees), started on any inner "
+                "value with the value as scope gives that value's text, and with the rest of the enclosing container as scope refuses "
+                "(InnerMarshalAgrees); negative control: the machine that honours an Advance-positioned iterator's pending skip violates it. "
+                "G: Iter.MarshalJSON from the root, from iterators scoped on every inner value (AdvanceIter / NextElementBytes / "
+                "NextElement / Elements[k].Iter), from the iterators Array.ForEach / Object.ForEach hand to their callbacks and "
+                "Array.Iter()+Advance (these may refuse; what they return without an error must be the value), Array.MarshalJSON, "
+                "Elements.MarshalJSON compared with Marshal!Render for every document and every one-step edit; output re-parsed and "
                 "re-marshalled (fixed point). Non-trivial = output with a separator or after an edit.")
+    neg = ctx.tlc("MC_Edit", cfg="MC_Edit_marshal_legacy.cfg", label="negative control: pending skip honoured", expect_violation=True, check=False)
+    if neg["ok"] or "LegacySkipAgrees is violated" not in neg["out"]:
+        raise Infra("negative control: the machine that honours the pending skip was NOT rejected by InnerAgrees:\n%s" % neg["out"][-1500:])
     edit_replay(ctx, "marshal_q" if quick(ctx) else "del_t", "C10")
     edit_replay(ctx, "bytes", "C10")          # every byte < 0x80 and multi-byte UTF-8 as key and as value
     edit_replay(ctx, "bytepos", "C10")        # every byte < 0x80 at every position 0..17 of a padded string; pairs of escapes
